@@ -238,7 +238,7 @@ fn write_entry(
         low_res_scale,
     } = entry.specs;
 
-    file_format.write_header(w, &EntryHeaderData {
+    file_format.write_header(w, emitter, &EntryHeaderData {
         rt_width, rt_height, rt_format, colorkey,
         offset_x, offset_y,
         memory_priority,
@@ -487,7 +487,7 @@ impl FileFormat {
         }
     }
 
-    fn write_header(&self, f: &mut BinWriter, header: &EntryHeaderData) -> WriteResult {
+    fn write_header(&self, f: &mut BinWriter, emitter: &impl Emitter, header: &EntryHeaderData) -> WriteResult {
         if self.version.is_old_header() {
             // old format
             f.write_u32(header.num_sprites as _)?;
@@ -510,16 +510,20 @@ impl FileFormat {
 
         } else {
             // new format
+            // (16-bit fields; a value that does not fit must be an error, never a different value)
+            let fit16 = |what: &str, value: u32| u16::try_from(value).map_err(|_| {
+                emitter.emit(error!("{what} {value} is too large for this version of the ANM format (max {})", u16::MAX))
+            });
             f.write_u32(header.version as _)?;
-            f.write_u16(header.num_sprites as _)?;
-            f.write_u16(header.num_scripts as _)?;
+            f.write_u16(fit16("number of sprites", header.num_sprites)?)?;
+            f.write_u16(fit16("number of scripts", header.num_scripts)?)?;
             f.write_u16(0)?;
-            f.write_u16(header.rt_width as _)?;
-            f.write_u16(header.rt_height as _)?;
-            f.write_u16(header.rt_format as _)?;
+            f.write_u16(fit16("rt_width", header.rt_width)?)?;
+            f.write_u16(fit16("rt_height", header.rt_height)?)?;
+            f.write_u16(fit16("rt_format", header.rt_format)?)?;
             f.write_u32(header.name_offset as _)?;
-            f.write_u16(header.offset_x as _)?;
-            f.write_u16(header.offset_y as _)?;
+            f.write_u16(fit16("offset_x", header.offset_x)?)?;
+            f.write_u16(fit16("offset_y", header.offset_y)?)?;
             f.write_u32(header.memory_priority as _)?;
             f.write_u32(header.thtx_offset.map(NonZeroU64::get).unwrap_or(0) as _)?;
             f.write_u16(header.has_data as _)?;
